@@ -177,9 +177,12 @@ pub fn run_c06(tier: Tier, seed: u64, index: u64, scratch: &Scratch, rec: &mut R
 // ---------------------------------------------------------------------------------------------
 fn set_actor(t: &mut SupplyTrace, which: usize, exit: ExitSpec, ops: Vec<FsOp>, noutf8: bool) {
     if let Some(i) = t.root.layout.inspect.get_mut(which) {
+        // an inspection that writes more than a pipe buffer holds to both streams (1 cell in 16)
+        let big = !noutf8 && (ops.len() + which) % 2 == 1 && matches!(exit, ExitSpec::Code(0) | ExitSpec::Code(2));
         i.actor.exit = exit;
         i.actor.ops = ops;
-        i.actor.stdout = if noutf8 { vec![0xff, 0xfe, 0x00, 0xc3] } else { b"inspected\n".to_vec() };
+        i.actor.stdout = if noutf8 { vec![0xff, 0xfe, 0x00, 0xc3] } else if big { vec![b'o'; 180_000] } else { b"inspected\n".to_vec() };
+        i.actor.stderr = if big { vec![b'e'; 120_000] } else { vec![] };
     }
 }
 
